@@ -65,7 +65,7 @@ fn rewrite(c: &mut Case<'_>, b: &Base) -> Option<(&'static str, String)> {
     let mut st = Style { decl: had_decl, ..Style::default() };
     let mut classes: Vec<&'static str> = vec!["empty-tag", "pretty-whitespace", "decl-toggle", "comment-between", "pi-between", "escape-all", "comment-after-root"];
     if nt > 0 {
-        classes.extend(["cdata", "comment-in-text", "charref", "cdata", "comment-in-text", "charref"]);
+        classes.extend(["cdata", "comment-in-text", "charref", "cdata", "comment-in-text", "charref", "multi-split", "multi-split", "multi-split"]);
     }
     if b.root.attrs.iter().any(|(k, _)| !k.is_empty()) {
         classes.push("attr-quotes");
@@ -75,6 +75,12 @@ fn rewrite(c: &mut Case<'_>, b: &Base) -> Option<(&'static str, String)> {
         "cdata" => st.cdata_at = Some(c.t.below(nt)),
         "comment-in-text" => st.comment_in_text = Some((c.t.below(nt), c.t.below(8))),
         "charref" => st.charref = Some((c.t.below(nt), c.t.below(8), c.t.bool())),
+        "multi-split" => {
+            // the text in 3..5 pieces: plain text, CDATA sections, comments and processing instructions in between
+            let n = 2 + c.t.below(3);
+            let offs: Vec<usize> = (0..n).map(|_| c.t.below(12)).collect();
+            st.multi = Some((c.t.below(nt), offs, u32::from(c.t.u16())));
+        }
         "empty-tag" => st.self_close_empty = true,
         "pretty-whitespace" => st.pretty = true,
         "decl-toggle" => st.decl = !had_decl,
@@ -92,7 +98,7 @@ fn rewrite(c: &mut Case<'_>, b: &Base) -> Option<(&'static str, String)> {
 fn known_sig_for_rewrite(class: &str) -> String {
     match class {
         "cdata" => "xml-equiv:cdata-text-dropped".into(),
-        "comment-in-text" => "xml-equiv:comment-splits-text".into(),
+        "comment-in-text" | "multi-split" => "xml-equiv:comment-splits-text".into(),
         other => format!("xml-equiv:{other}"),
     }
 }
